@@ -67,7 +67,7 @@ func init() {
 		"damaged token class in the Authorization header of messages 12/22/32/62/64/68/70/255 to the real handler. Oracles on "+
 		"the implementation alone: read-your-write, no value of another session, invalid/invalidated tokens grant nothing, expired "+
 		"blob not returned, replace semantics, restart transparency, no panic. distinct = distinct abstract histories (ops, token "+
-		"classes, fields, GUID pattern; values abstracted); trivial = a single token and no reopen", c18)
+		"classes, fields, GUID pattern; values abstracted); every other execution with DB.DebugLog on; trivial = a single token and no reopen", c18)
 }
 
 // ---------------------------------------------------------------- material
